@@ -81,7 +81,7 @@ CHECKS = {
              "tables, parse returns a message or raises UBXParseError/UBXMessageError/UBXTypeError (EOther = the executable "
              "model declines above its repeat budget); C08_construct_no_foreign: same for the constructor with any "
              "keyword values; C08_no_zero_div (table obligation); C08_read_terminates, C08_read_no_raise, "
-             "C08_read_raise_family for every stream and configuration. Partial: the exception discipline of the two "
+             "C08_read_raise_family for every stream and configuration; C08_sock_terminates (iteration over a socket ends for every recv() schedule). Partial: the exception discipline of the two "
              "third-party parsers is an assumption (exercised on every generated frame); str()'s text and wall-clock are "
              "exercised, not modelled; inspection functions are total in the model by construction.",
         note=MSG_NOTE + " " + READER_NOTE, ref="DESIGN.md §6 C08"),
@@ -89,7 +89,7 @@ CHECKS = {
         technique="Coq proof (simulation between the cut and uncut runs, induction on fuel) + correspondence at every cut position",
         text="C09_prefix for every byte string and every cut position: the cut run's items are a prefix of the uncut "
              "run's; it raises nothing and leaves nothing unread (C09_no_raise); no partial frame (C09_no_partial); on "
-             "clean streams every frame wholly before the cut is delivered (C09_clean).",
+             "clean streams every frame wholly before the cut is delivered (C09_clean); C09_prefix_socket: the cut stream arriving through a socket (any segmentation, close/timeout/OSError) still yields a prefix and ends.",
         note=READER_NOTE, ref="DESIGN.md §6 C09"),
     "C10": dict(
         technique="Coq proof (SocketWrapper state machine refines the abstract byte stream; simulation with the file reader) + correspondence over all segmentations + real socketpair run",
